@@ -86,6 +86,14 @@ impl LocalTypeEnv {
         self.tparam_trait_bounds.clear();
     }
 
+    /// The bounded type parameters in scope, for a check that is made later.
+    pub fn tparam_trait_bounds_snapshot(&self) -> Vec<(String, Vec<String>)> {
+        self.tparam_trait_bounds
+            .iter()
+            .map(|(param, traits)| (param.clone(), traits.iter().map(|t| t.0.clone()).collect()))
+            .collect()
+    }
+
     pub fn tparam_trait_bounds(&self, name: &str) -> Option<&[TastIdent]> {
         self.tparam_trait_bounds.get(name).map(|v| v.as_slice())
     }
